@@ -8,6 +8,7 @@ TODO: Handle sys.argv
 import sys
 import io
 import threading
+import time
 import types
 from itertools import zip_longest
 from unittest.mock import patch
@@ -584,7 +585,8 @@ class Sandbox:
         self._start_patches(
             patch.dict('sys.modules', overridden_modules),
             patch('sys.stdout', self._current_stdout[-1]),
-            patch('time.sleep', return_value=None),
+            # The real module, whatever the instructor mocked or blocked under the name `time`
+            patch.object(time, 'sleep', return_value=None),
         )
 
     def _stop_mocking(self, context: SandboxContext):
